@@ -61,6 +61,9 @@ def collect(only):
     for pth in sorted(glob.glob(os.path.join(V, "selftest", "mutants", "*", "*.diff"))):
         pid = os.path.basename(os.path.dirname(pth))
         items.append(dict(id=f"{pid}/{os.path.basename(pth)[:-5]}", kind="mutant", patch=pth, demo=None, props=[pid], summary=open(pth).readline().strip("# \n")))
+    for pth in sorted(glob.glob(os.path.join(V, "selftest", "controls", "*", "*.diff"))):
+        pid = os.path.basename(os.path.dirname(pth))
+        items.append(dict(id=f"control:{pid}/{os.path.basename(pth)[:-5]}", kind="control", patch=pth, demo=None, props=[pid], summary=open(pth).readline().strip("# \n")))
     if only:
         items = [i for i in items if only in i["id"]]
     return items
@@ -91,7 +94,7 @@ def one(item, tier, all_checks, stable):
             res["demo_fails_with_change"] = a.returncode != 0
             res["demo_passes_without"] = b.returncode == 0
         props = item["props"]
-        if all_checks:
+        if all_checks or (item["kind"] == "control" and os.environ.get("VERIF_CONTROLS_ALL") == "1"):
             props = [c["property_id"] for c in json.load(open(os.path.join(V, "MANIFEST.json")))["checks"]]
         out = tempfile.mkdtemp(prefix="vfout_", dir="/tmp")
         res["checks"] = {}
@@ -100,6 +103,8 @@ def one(item, tier, all_checks, stable):
             r = sh([os.path.join(V, "check"), pid, tier], env=env, timeout=7200)
             viol = [ln for ln in r.stdout.splitlines() if ln.startswith("VIOLATION")]
             verdict = "caught" if (r.returncode == 1 and viol) else ("inconclusive" if r.returncode == 2 else ("missed" if r.returncode == 0 else f"exit {r.returncode}"))
+            if item["kind"] == "control":
+                verdict = {"caught": "FALSE ALARM", "missed": "silent (as required)"}.get(verdict, verdict)
             res["checks"][pid] = dict(verdict=verdict, first=(viol[0][:400] if viol else r.stdout.strip().splitlines()[-1][:300] if r.stdout.strip() else ""), n_signatures=len(viol))
         shutil.rmtree(out, ignore_errors=True)
     except subprocess.TimeoutExpired as e:
@@ -134,12 +139,15 @@ def main():
                 "`demo` = (fails with the change, passes without); then the registered check of the targeted property runs against the scratch tree.\n\n")
         f.write("| change | kind | tests | demo | property check | first VIOLATION line / last line |\n|---|---|---|---|---|---|\n")
         for r in results:
-            for p in r["props"] or ["-"]:
+            for p in (list(r.get("checks", {}).keys()) or r["props"] or ["-"]):
                 c = r.get("checks", {}).get(p, {})
                 f.write(f"| {r['id']} | {r['kind']} | {r.get('stable_tests_still_pass')} | {(r.get('demo_fails_with_change'), r.get('demo_passes_without')) if r['kind']=='seeded' else '-'} | {p}: **{c.get('verdict', r.get('error','?'))}** | {c.get('first','')[:160].replace('|','/')} |\n")
-        n = sum(1 for r in results for p in r["props"] if r.get("checks", {}).get(p, {}).get("verdict") == "caught")
-        m = sum(len(r["props"]) for r in results)
-        f.write(f"\ncaught {n} of {m}\n")
+        br = [r for r in results if r["kind"] != "control"]
+        n = sum(1 for r in br for p in r["props"] if r.get("checks", {}).get(p, {}).get("verdict") == "caught")
+        m = sum(len(r["props"]) for r in br)
+        ct = [c for r in results if r["kind"] == "control" for c in r.get("checks", {}).values()]
+        f.write(f"\nbreaking changes caught by the check of the targeted property: {n} of {m}\n")
+        f.write(f"behaviour-preserving controls: {sum(1 for c in ct if c['verdict'].startswith('silent'))} of {len(ct)} check runs silent\n")
 
 
 if __name__ == "__main__":
